@@ -252,6 +252,9 @@ func TestBoundedC02RefMap(t *testing.T) {
 		}
 		db := NewInterface(&Options{Local: true, Internal: true, CacheSize: c.cache})
 		runSeq := func(seq []int) {
+			if fails >= 200 {
+				return // enough evidence; do not enumerate the rest
+			}
 			cases++
 			seqNo++
 			ns := fmt.Sprintf("s%d/", seqNo)
